@@ -29,4 +29,25 @@ def pingExpected (wErr : Bool) : Res :=
   let pre := ["activePingsMu.Lock", "activePings[p]=make(chanstruct{},1)", "activePingsMu.Unlock", "writeControl"]
   if wErr then errRes pre else ⟨pre, .opaque "select"⟩
 
+/-! ### msgWriter.Close (C01, C02, C05, C07) -/
+
+def envMwClose (lockErr closed flate flushErr frameErr takeover : Bool) : Env :=
+  mkEnv [("writeMu.lock:err!=nil", lockErr), ("closed", closed), ("flate", flate), ("flateWriter.Flush:err!=nil", flushErr),
+    ("writeFrame:err!=nil", frameErr), ("flateContextTakeover()", takeover)]
+
+/-- the writer's own lock is held for the call; a closed writer does nothing; the writer is marked closed before anything is
+sent; a compressed message is flushed; the final frame is written with FIN, with the message's compression flag and with the
+opcode the message is at (its type if nothing was written yet, continuation otherwise) and no payload; the compressor is
+given back exactly when its context is not kept; the message lock is released only after the final frame was written. -/
+def mwCloseExpected (lockErr closed flate flushErr frameErr takeover : Bool) : Res :=
+  if lockErr then errRes ["writeMu.lock"]
+  else
+    let pre := ["writeMu.lock", "defer writeMu.unlock"]
+    if closed then errRes pre
+    else
+      let p2 := pre ++ ["closed=true"] ++ (if flate then ["flateWriter.Flush"] else [])
+      if flate && flushErr then errRes p2
+      else if frameErr then errRes (p2 ++ ["writeFrame(ctx,true,flate,opcode,nil)"])
+      else okRes (p2 ++ ["writeFrame(ctx,true,flate,opcode,nil)"] ++ (if flate && !takeover then ["putFlateWriter"] else []) ++ ["mu.unlock"])
+
 end WS.Props.G2
